@@ -327,6 +327,21 @@ def rule_MP13(rep, prog):
                         "completed early instead of being queued (its channel was stopped) leaves an empty slot at the request index - every later operation on that "
                         "device is marked active but never performed" % (bare[0][3] if bare else None), sample={"increment": inc.loc})
     if n < 1:
+        # other loop shapes (do / while, the increment merged with a `continue` edge through a second phi): the increment of the ring index - a phi used as
+        # the slot subscript, plus one - is executed only after a store into the ring in the same iteration
+        for inc in fn.all_insts():
+            if inc.op != "add" or not (inc.ops[1][0] == "c" and inc.ops[1][1] == 1):
+                continue
+            ph = fn.inst(inc.ops[0])
+            if ph is None or ph.op != "phi" or not any(slot_key(st.ops[1]) == ("urem", ("i", ph.id)) for st in sts):
+                continue
+            n += 1
+            ok = any(fn.dominates(st, inc) and fn.block_dominates(ph.block.id, st.block.id) for st in sts)
+            rep.require(rid, ok, inc.loc, fn.name, "ring-index-advanced-past-unfilled-slot",
+                        "_dispatch_disk_handler advances the ring fill index at a point that is not preceded, in the same iteration, by a store into the slot: an "
+                        "operation that is completed early instead of being queued leaves an empty slot at the request index - every later operation on that device is "
+                        "marked active but never performed", sample={"increment": inc.loc})
+    if n < 1:
         rep.unknown(rid, "loop-carried ring fill index of _dispatch_disk_handler not recognised")
 
 
